@@ -21,6 +21,7 @@ class TableInfo:
     sub_select: ast.ASTNode = None
     predictor_info: dict = None
     join_condition = None
+    join_type = None
     index: int = None
 
 class PlanJoin:
@@ -156,7 +157,7 @@ class PlanJoinTablesQuery:
         if parts in self.tables_idx:
             return self.tables_idx[parts]
 
-    def get_join_sequence(self, node, condition=None):
+    def get_join_sequence(self, node, condition=None, join_type=None):
         sequence = []
         if isinstance(node, Identifier):
             # resolve identifier
@@ -172,6 +173,7 @@ class PlanJoinTablesQuery:
 
             if condition is not None:
                 table_info.join_condition = condition
+                table_info.join_type = join_type
             sequence.append(table_info)
 
         elif isinstance(node, Join):
@@ -182,7 +184,7 @@ class PlanJoinTablesQuery:
             for item in sequence2:
                 sequence.append(item)
 
-            sequence2 = self.get_join_sequence(node.right, condition=node.condition)
+            sequence2 = self.get_join_sequence(node.right, condition=node.condition, join_type=node.join_type)
             if len(sequence2) != 1:
                 raise PlanningException('Unexpected join nesting behavior')
 
@@ -473,6 +475,11 @@ class PlanJoinTablesQuery:
         return columns_map
 
     def get_filters_from_join_conditions(self, fetch_table):
+
+        join_type = (fetch_table.join_type or '').upper()
+        if join_type not in ('JOIN', 'INNER JOIN', 'CROSS JOIN', 'LEFT JOIN', 'LEFT OUTER JOIN'):
+            # the join keeps the rows of this table that have no match: ON can't restrict what is fetched
+            return []
 
         binary_ops = set()
         conditions = []
